@@ -415,7 +415,7 @@ def composed_constructions(pool, rng, thorough):
     out = []
     small = [p for p in pool if int(np.prod(p[2])) <= 9]
     par = [p for p in small if p[1] > 0]
-    n_each = 60 if thorough else 22
+    n_each = 70 if thorough else 45
 
     def pick(l):
         return l[rng.randrange(len(l))]
@@ -567,7 +567,7 @@ def gen_points(spec, np_, rates, rng, thorough, large=1e3):
     points, seeded random.  Each point: (kind, values, exact|None) where exact
     is a list of Pt (only when `rates` is known and the kind is exact)."""
     pts = []
-    mult = 40 if thorough else 1
+    mult = 40 if thorough else 2
     if np_ == 0:
         return [('const', [], [] if rates is not None else None)]
 
@@ -1094,6 +1094,12 @@ def run(ck: Check):
     from bqskit.ir.circuit import Circuit  # noqa: F401 (import order)
     thorough = ck.tier == 'thorough'
     rng = ck.rng
+    import time as _t
+    _t0 = [_t.time()]
+
+    def phase(name):
+        ck.coverage.setdefault('phase_s', {})[name] = round(_t.time() - _t0[0], 1)
+        _t0[0] = _t.time()
 
     # ------------------------------------------------ (B) shapes + obligations
     from translate import gate_shapes
@@ -1103,6 +1109,7 @@ def run(ck: Check):
         raise InfraError(f'translate/gate_shapes.py failed: {e!r}')
     proved = ck.lean_obligations()
     ck.coverage['shape_rows'] = len(shape_rows)
+    phase('lean')
 
     # ------------------------------------------------------------ discovery
     found = discover()
@@ -1150,6 +1157,7 @@ def run(ck: Check):
     all_results = []
     tasks1, res1 = run_batch(base_specs + special_specs, 'base')
     all_results += list(zip(tasks1, res1))
+    phase('base')
     # pool of inner gates: base constructions whose own value oracles hold
     pool = []
     VALUE = {'unitarity', 'grad-fd', 'grad', 'grad-shape', 'radixes', 'shape', 'unitary',
@@ -1168,6 +1176,7 @@ def run(ck: Check):
     comp_specs = composed_constructions(pool, rng, thorough)
     tasks2, res2 = run_batch(comp_specs, 'composed', frozenset(bad_opt))
     all_results += list(zip(tasks2, res2))
+    phase('composed')
 
     # ---------------------------------------------------- collect violations
     covered = set()
@@ -1218,6 +1227,39 @@ def run(ck: Check):
                      'harness/c18.py:base_constructions): ' + ', '.join(sorted(set(uncovered))),
                      {'classes': sorted(set(uncovered))}, found_input=False)
 
+    # --------------------------------------------------------------- qiskit
+    try:
+        QT = qiskit_table()
+    except Exception as e:
+        raise InfraError(f'qiskit import failed: {e!r}')
+    import bqskit.ir.gates as G
+    nq = 0
+    for name, mk in sorted(QT.items()):
+        if name not in found:
+            continue
+        g = getattr(G, name)()
+        pts = gen_points(('cls', name, ()), g.num_params, None,
+                         random.Random(rng.getrandbits(48)), thorough)
+        for kind, vals, _ in pts:
+            try:
+                Q = qiskit_matrix(mk(vals))
+            except Exception as e:
+                raise InfraError(f'qiskit oracle failed for {name}: {e!r}')
+            U = np.asarray(g.get_unitary(vals).numpy)
+            nq += 1
+            ck.count(('qiskit', name, kind, tuple(round(v, 12) for v in vals)))
+            err = float(np.abs(Q - U).max()) if Q.shape == U.shape else float('inf')
+            if not (err < QISKIT_TOL * max(1.0, max((abs(v) for v in vals), default=0) * 0.1)):
+                blamed.add(('unitarity', ALIASES.get(name, name)))
+                ck.violation(f'qiskit:{name}',
+                             f'{name}({vals}) differs from the matrix Qiskit assigns '
+                             f'to the same name by {err:.3g}',
+                             {'gate': name, 'params': vals})
+                break
+    ck.coverage['qiskit_comparisons'] = nq
+    ck.coverage['qiskit_named_gates'] = len([n for n in QT if n in found])
+    phase('qiskit')
+
     # -------------------------------------------- exact comparison with Lean
     lines, back = [], []
     for (i, s, pts, _, we, *_), r in all_results:
@@ -1234,7 +1276,19 @@ def run(ck: Check):
             if Ui is not None:
                 lines.append(f'inv | {e}{tail}')
                 back.append(('inv', s, vals, Ui, rates))
-    outs = ck.driver('gates', lines) if lines else []
+    outs = []
+    if lines:
+        from concurrent.futures import ThreadPoolExecutor
+        nchunk = 12
+        chunks = [lines[i::nchunk] for i in range(nchunk)]
+        chunks = [c for c in chunks if c]
+        with ThreadPoolExecutor(len(chunks)) as ex:
+            parts = list(ex.map(lambda ch: ck.driver('gates', ch), chunks))
+        outs = [None] * len(lines)
+        for i, part in enumerate(parts):
+            if len(part) != len(chunks[i]):
+                raise InfraError('driver output length mismatch')
+            outs[i::nchunk] = part
     if len(outs) != len(lines):
         raise InfraError('driver output length mismatch')
     exact_kinds = {}
@@ -1266,6 +1320,13 @@ def run(ck: Check):
         tol = EXACT_TOL * max(1.0, max((abs(v) for v in vals), default=0.0) * 0.05) \
             * (PI if what == 'g' else 1.0)
         if not (err < tol):
+            fams = ('unitarity', 'compose', 'radixes', 'shape', 'unitary') + \
+                {'u': (), 'g': ('grad', 'ug'), 'inv': ('inverse',)}[what]
+            if any((f, c) in blamed for f in fams
+                   for c in [outer_class(s)] + inner_nodes(s)):
+                # the independent oracles already produced a failing input for this gate
+                ck.bump('correspondence_mismatch_explained_by_oracle', what)
+                continue
             ck.violation(
                 f'correspondence-{what}:{outer_class(s)}',
                 f'{name}: implementation and Lean model disagree on '
@@ -1275,37 +1336,7 @@ def run(ck: Check):
                  'model': out[:400], 'broken': 'correspondence gates',
                  'spec': repr(s)}, found_input=False)
     ck.coverage['exact_requests_by_kind'] = exact_kinds
-
-    # --------------------------------------------------------------- qiskit
-    try:
-        QT = qiskit_table()
-    except Exception as e:
-        raise InfraError(f'qiskit import failed: {e!r}')
-    import bqskit.ir.gates as G
-    nq = 0
-    for name, mk in sorted(QT.items()):
-        if name not in found:
-            continue
-        g = getattr(G, name)()
-        pts = gen_points(('cls', name, ()), g.num_params, None,
-                         random.Random(rng.getrandbits(48)), thorough)
-        for kind, vals, _ in pts:
-            try:
-                Q = qiskit_matrix(mk(vals))
-            except Exception as e:
-                raise InfraError(f'qiskit oracle failed for {name}: {e!r}')
-            U = np.asarray(g.get_unitary(vals).numpy)
-            nq += 1
-            ck.count(('qiskit', name, kind, tuple(round(v, 12) for v in vals)))
-            err = float(np.abs(Q - U).max()) if Q.shape == U.shape else float('inf')
-            if not (err < QISKIT_TOL * max(1.0, max((abs(v) for v in vals), default=0) * 0.1)):
-                ck.violation(f'qiskit:{name}',
-                             f'{name}({vals}) differs from the matrix Qiskit assigns '
-                             f'to the same name by {err:.3g}',
-                             {'gate': name, 'params': vals})
-                break
-    ck.coverage['qiskit_comparisons'] = nq
-    ck.coverage['qiskit_named_gates'] = len([n for n in QT if n in found])
+    phase('exact')
 
     # ----------------------------------------- equality classes across gates
     gates = []
@@ -1380,10 +1411,12 @@ def run(ck: Check):
                 except RuntimeError:
                     pass
     ck.coverage['eq_pairs_checked'] = neq
+    phase('eq')
 
     # ------------------------------------------------------ malformed stream
     nmal = malformed(ck, rng)
     ck.coverage['malformed_requests'] = nmal
+    phase('malformed')
 
     # ---------------------------------------------------------- bookkeeping
     ck.coverage['constructions'] = len(all_results)
@@ -1398,17 +1431,14 @@ def run(ck: Check):
         'non-trivial because every construction is a distinct gate object and '
         'every vector a distinct evaluation (constant gates contribute one case)')
     if not proved:
-        failing = None
-        for v in ck.violations:
-            if v['found']:
-                failing = v
-                break
+        sd = gate_shapes.diff_against_model()
         ck.violation(
-            'proof-obligation', 'Lean obligations of Props/C18 do not check '
-            '(a regenerated shape row differs from the model table, or a theorem '
-            'broke): ' + (ck.proof_failure or '')[-600:],
+            'proof-obligation', 'Lean obligations of Props/C18 do not check; '
+            + (f'shape rows that differ from the model table: {sd[:3]}; ' if sd else
+               'shape table unchanged; ')
+            + 'build log tail: ' + ' '.join((ck.proof_failure or '').split())[-300:],
             {'broken': 'BqVerif.Props.C18', 'log': ck.proof_failure,
-             'shape_diff': gate_shapes.diff_against_model()},
+             'shape_diff': sd},
             found_input=False)
     ck.assumptions += [
         'the carrier of the theorems is an arbitrary commutative *-ring with '
